@@ -169,6 +169,15 @@ pub fn run_c04(out: &mut Out, rng: &mut Rng, thorough: bool) {
       out.evaluations += 1;
       out.stat("C04:out-of-range");
       if r.is_some() { out.violation("C04:no-guard", format!("depth={} hash={}", depth, h), "panic".into(), "a map".into()); }
+      // the single-direction variant is documented to panic too (finding F20)
+      for k in 0..8usize {
+        let wi = [0usize, 1, 2, 3, 5, 6, 7, 8][k];
+        let single = catch(|| get_or_create(*depth).neighbour(h, mw(wi)));
+        let w = mw(wi);
+        out.rec(&format!("neighbour {} {} {}", depth, h, wi), &match single { None => "panic".into(), Some(None) => "none".into(), Some(Some(x)) => x.to_string() });
+        out.evaluations += 1;
+        if single.is_some() { out.violation("C04:no-guard:neighbour", format!("depth={} hash={} direction={:?}", depth, h, w), "panic".into(), format!("{:?}", single)); }
+      }
     }
   }
 }
